@@ -236,6 +236,21 @@ func c02worker(arg string) {
 			st.Skipped++
 			continue
 		}
+		if len(t.atMostOnce) > 0 {
+			cnt := map[string]int{}
+			twice := false
+			for _, th := range p {
+				for _, c := range th {
+					if m := t.ops[c].method; t.atMostOnce[m] {
+						cnt[m]++
+						twice = twice || cnt[m] > 1
+					}
+				}
+			}
+			if twice {
+				continue
+			}
+		}
 		st.Scenarios++
 		// sequential reference: every order respecting program order, run one call at a time
 		ords := orders(p)
